@@ -35,7 +35,7 @@ Expect(m, i) ==
    value  |-> IF m = "none" THEN -1 ELSE 100 + i,
    wrote  |-> IF Writable(m) THEN 77 ELSE IF m = "none" THEN -1 ELSE 100 + i,
    copies |-> IF m \in {"ccval", "ccref"} THEN 0 ELSE -1,
-   retal  |-> IF m = "lref" THEN 1 ELSE -1,
+   retal  |-> IF m \in {"lref", "clref", "ccref"} THEN 1 ELSE -1,
    plain  |-> 1,
    lr     |-> 2]
 =============================================================================
